@@ -1,0 +1,26 @@
+//go:build verif
+
+// Verification hook (build tag "verif"): exported aliases of unexported server internals.
+package server
+
+import (
+	"net"
+
+	"git.sr.ht/~adrian-blx/psa-dhcp/lib/dhcpmsg"
+	"git.sr.ht/~adrian-blx/psa-dhcp/lib/server/ipdb"
+	d "git.sr.ht/~adrian-blx/psa-dhcp/lib/server/ipdb/duid"
+)
+
+// Server is the exported name of the server type.
+type Server = server
+
+func (sx *server) VerifHandleMsg(src, dst net.IP, msg dhcpmsg.Message) { sx.handleMsg(src, dst, msg) }
+func (sx *server) VerifGetDuid(hw net.HardwareAddr, cid []byte) d.Duid  { return sx.getDuid(hw, cid) }
+func (sx *server) VerifDhcpOptions(hw net.HardwareAddr) []dhcpmsg.DHCPOpt {
+	return sx.dhcpOptions(hw)
+}
+func (sx *server) VerifIPDB() *ipdb.IPDB { return sx.ipdb }
+func (sx *server) VerifArpVerify(hw net.HardwareAddr, ip net.IP) bool {
+	return sx.arpVerify(hw)(sx.ctx, ip)
+}
+func VerifDuidFromHwAddr(hw net.HardwareAddr) d.Duid { return duidFromHwAddr(hw) }
